@@ -132,7 +132,11 @@ def load_known():
 def finding_matches(f, pid, key, clause, replay):
     if f.get('property') != pid:
         return False
-    if f.get('function') and f['function'] != f'{key[0]}:{key[1]}':
+    # a finding recorded for a bounded check (or one that names no function) says nothing about a refuted clause:
+    # it must never silence the deductive part
+    if f.get('bounded') or not f.get('function'):
+        return False
+    if f['function'] != f'{key[0]}:{key[1]}':
         return False
     if f.get('clause') and f['clause'] != clause:
         return False
@@ -317,6 +321,11 @@ def main(argv=None):
         print(f'CHECKER-CRASH property={pid} {key}\n{tb}')
     for fn_label, edit in unsound:
         print(f'ENGINE-UNSOUND property={pid} {fn_label}: canary {edit} survived')
+    reported = len(violations) + len(undecided) + len(known_lines) + len(crashes)
+    if n_discharged < n_clause and not reported:
+        # every clause that is not discharged must surface as a violation, an undecided line or a known finding
+        print(f'CHECKER-CRASH property={pid}: {n_clause - n_discharged} clause(s) neither discharged nor reported')
+        crashes.append(('accounting', 'undischarged clause not reported'))
     if not keys and not bounded_out:
         print(f'CHECKER-CRASH property={pid}: zero obligations generated')
         crashes.append(('none', 'zero obligations'))
